@@ -351,7 +351,17 @@ pub fn metadata<P: AsRef<Path>>(p: P) -> io::Result<Metadata> {
     if dir_exists(b) { return Ok(Metadata { dir: 1, len: 0 }); }
     Err(not_found())
 }
-pub fn read<P: AsRef<Path>>(p: P) -> io::Result<Vec<u8>> {
+// `fs::read` returns a plain struct with the methods patch.rs calls on the result, not `io::Result<Vec<u8>>`: that Result
+// gets rustc's multi-variant niche layout (discriminant in the spare values of Vec's capacity), which Kani models as a
+// union -- the length of the returned Vec would no longer be a constant for symbolic execution (DESIGN.md, R11)
+pub struct ReadResult { found: usize, data: Vec<u8> }
+impl ReadResult {
+    pub fn unwrap(self) -> Vec<u8> { if self.found == 0 { panic!("called `Result::unwrap()` on an `Err` value: NotFound"); } self.data }
+    pub fn ok(self) -> Option<Vec<u8>> { if self.found == 0 { None } else { Some(self.data) } }
+    pub fn is_ok(&self) -> bool { self.found != 0 }
+    pub fn is_err(&self) -> bool { self.found == 0 }
+}
+pub fn read<P: AsRef<Path>>(p: P) -> ReadResult {
     match lookup(path_bytes(p.as_ref())) {
         Some(slot) => {
             let s = fs();
@@ -359,23 +369,27 @@ pub fn read<P: AsRef<Path>>(p: P) -> io::Result<Vec<u8>> {
             let mut v = Vec::with_capacity(n);
             let mut i = 0;
             while i < n { v.push(s.data[slot][i]); i += 1; }
-            Ok(v)
+            ReadResult { found: 1, data: v }
         }
-        None => Err(not_found()),
+        None => ReadResult { found: 0, data: Vec::new() },
     }
 }
 
-pub struct DirEntry { path: PathBuf, dir: bool, len: u64 }
+// integer fields only (no PathBuf, no bool, no Vec): `io::Result<DirEntry>` / `io::Result<ReadDir>` must not have a niche to use
+#[derive(Clone, Copy)]
+pub struct DirEntry { slot: usize, end: usize, dir: usize, len: u64 }
 impl DirEntry {
-    pub fn metadata(&self) -> io::Result<Metadata> { Ok(Metadata { dir: self.dir as usize, len: self.len }) }
-    pub fn path(&self) -> PathBuf { self.path.clone() }
+    pub fn metadata(&self) -> io::Result<Metadata> { Ok(Metadata { dir: self.dir, len: self.len }) }
+    pub fn path(&self) -> PathBuf { PathBuf::from(unsafe { core::str::from_utf8_unchecked(&fs().name[self.slot][..self.end]) }) }
 }
-pub struct ReadDir { entries: Vec<DirEntry>, next: usize }
+pub struct ReadDir { items: [DirEntry; NF], n: usize, next: usize }
 impl Iterator for ReadDir {
     type Item = io::Result<DirEntry>;
     fn next(&mut self) -> Option<io::Result<DirEntry>> {
-        if self.entries.is_empty() { return None; }
-        Some(Ok(self.entries.remove(0)))
+        if self.next >= self.n { return None; }
+        let e = self.items[self.next];
+        self.next += 1;
+        Some(Ok(e))
     }
 }
 /// immediate children of `p`: regular files directly inside it, and each sub-directory once
@@ -383,7 +397,8 @@ pub fn read_dir<P: AsRef<Path>>(p: P) -> io::Result<ReadDir> {
     let b = path_bytes(p.as_ref());
     if !dir_exists(b) { return Err(not_found()); }
     let s = fs();
-    let mut entries: Vec<DirEntry> = Vec::new();
+    let mut items = [DirEntry { slot: 0, end: 0, dir: 0, len: 0 }; NF];
+    let mut n = 0;
     let mut i = 0;
     while i < NF {
         if under(i, b) {
@@ -407,11 +422,11 @@ pub fn read_dir<P: AsRef<Path>>(p: P) -> io::Result<ReadDir> {
                 }
             }
             if first {
-                let child = unsafe { core::str::from_utf8_unchecked(&s.name[i][..end]) };
-                entries.push(DirEntry { path: PathBuf::from(child), dir: !is_file, len: if is_file { s.len[i] as u64 } else { 0 } });
+                items[n] = DirEntry { slot: i, end, dir: if is_file { 0 } else { 1 }, len: if is_file { s.len[i] as u64 } else { 0 } };
+                n += 1;
             }
         }
         i += 1;
     }
-    Ok(ReadDir { entries, next: 0 })
+    Ok(ReadDir { items, n, next: 0 })
 }
